@@ -792,6 +792,47 @@ class C03:
                     ctx.bad("R03.4", FILE, "geometry_validate", "json mode handling",
                             "mode 'json' does not (reject non-strings and) parse the text with json.loads before validation", s.node.lineno)
         # errors become ValueError
+        # a well-formed input of each mode reaches the validating call: none of the function's own rejections is live for it
+        from sa.peval import truth as _truth
+        from sa.sym import subst as _subst
+        for mval in ("json", "dict", "attributes"):
+            def decided(t_):
+                r_ = peval(t_, {mode: mval})
+                asg = {}
+                for x in walk(r_):
+                    if x[0] == "call" and x[1] == ("builtin", "isinstance") and len(x[2]) == 2:
+                        what, cls_ = x[2]
+                        loaded = any(y[0] == "call" and y[1] == ("ext", "json.loads") for y in walk(what))
+                        if cls_ == ("builtin", "dict"):
+                            asg[x] = (mval == "dict") or (mval == "json" and loaded)
+                        elif cls_ == ("builtin", "str"):
+                            asg[x] = mval == "json" and not loaded
+                        elif cls_[0] == "tuple" or cls_ in (("ext", "collections.abc.Mapping"), ("ext", "typing.Mapping")):
+                            asg[x] = mval in ("dict", "json")
+                    elif x[0] == "call" and x[1] == ("builtin", "hasattr") and len(x[2]) == 2 and x[2][1] == ("const", "type"):
+                        asg[x] = mval == "attributes"
+                    elif x[0] == "cmp" and x[1] in ("in", "notin") and x[2] == ("const", "type"):
+                        asg[x] = (mval != "attributes") == (x[1] == "in")
+                    elif x[0] == "cmp" and x[1] in ("in", "notin") and x[3] == MAP:
+                        asg[x] = x[1] == "in"
+                    elif x[0] == "cmp" and x[1] in ("is", "isnot") and x[3] == NONE and x[2][0] == "call" and x[2][1] == ("attr", MAP, "get"):
+                        asg[x] = x[1] == "isnot"  # the type tag is a known one
+                    elif x[0] == "caught":
+                        asg[x] = False
+                return _truth(peval(r_, asg)) if asg else _truth(r_)
+            live_raises = [r for r in s.raises if not r.in_handler and decided(r.live) is not False]
+            reach = decided(calls[0].live)
+            if live_raises and decided(live_raises[0].live) is True:
+                ctx.bad("R03.4", FILE, "geometry_validate", f"mode {mval!r}: raise under `{show(live_raises[0].live)[-70:]}`",
+                        f"geometry_validate(mode={mval!r}) rejects a well-formed {'JSON string' if mval == 'json' else ('dictionary' if mval == 'dict' else 'attribute object')} "
+                        f"of a known geometry type before validating it: the rejection `{show(live_raises[0].live)[-90:]}` is live for it", live_raises[0].lineno)
+            elif live_raises or reach is None:
+                ctx.undec("R03.4", site, f"mode {mval!r}: cannot decide whether a well-formed input reaches model_validate")
+            elif reach is False:
+                ctx.bad("R03.4", FILE, "geometry_validate", f"mode {mval!r}: model_validate not reached",
+                        f"geometry_validate(mode={mval!r}) does not reach the validating call for a well-formed input", calls[0].lineno)
+            else:
+                ctx.ok("R03.4", site, f"mode {mval!r}: a well-formed input reaches model_validate, no own rejection is live")
         hs = [h for t in s.tries.values() for h in t.handlers if any(n.split(".")[-1] == "ValidationError" for n in h[1])]
         conv = [r for r in s.raises if r.in_handler and any(h[0] in r.in_handler for h in hs)]
         ok = conv and all((r.term[1] if r.term[0] == "raise_from" else r.term)[1] == ("builtin", "ValueError") for r in conv)
